@@ -773,14 +773,15 @@ func (z *Decimal) FMA(x, y, u *Decimal) *Decimal {
 		z.prec = umax32(umax32(x.prec, y.prec), u.prec)
 	}
 
-	if u.form == zero {
+	if u.form == zero && x.form != zero && y.form != zero {
+		// the product is not a zero, so the sign of u cannot matter
 		return z.Mul(x, y)
 	}
-	// 0 < |u| <= Inf
+	// 0 < |u| <= Inf, or x*y and u are both zeros
 
 	// avoid trashing z if u == z
 	z0 := z
-	if alias(z.mant, u.mant) {
+	if z == u || alias(z.mant, u.mant) {
 		z0 = new(Decimal)
 		z0.mode = z.mode
 		z0.prec = z.prec
@@ -819,7 +820,10 @@ func (z *Decimal) FMA(x, y, u *Decimal) *Decimal {
 
 	// ±0 * y + u
 	// x * ±0 + u
-	return z.Set(u)
+	// (Add applies the sign rule for sums when u is a zero as well)
+	z0.acc = Exact
+	z0.form = zero
+	return z.Add(z0, u)
 }
 
 // Neg sets z to the (possibly rounded) value of x with its sign negated,
